@@ -31,8 +31,8 @@ func init() { Registry["topn"] = runTopN }
 
 // ---------------------------------------------------------------- stubs shared with the aggs engine
 
-// stubDoc is one match as a searcher would produce it, with the document's doc values.
-type stubDoc struct {
+// topnStubDoc is one match as a searcher would produce it, with the document's doc values.
+type topnStubDoc struct {
 	number uint64
 	score  float64
 	dv     map[int][][]byte // field id -> terms in the order a segment visits them (sorted, distinct)
@@ -43,58 +43,58 @@ type stubDoc struct {
 	dates map[int][]int64
 }
 
-func fieldName(id int) string { return fmt.Sprintf("f%d", id) }
-func fieldID(name string) int {
+func topnFieldName(id int) string { return fmt.Sprintf("f%d", id) }
+func topnFieldID(name string) int {
 	var id int
 	fmt.Sscanf(name, "f%d", &id)
 	return id
 }
 
-type stubReader struct{ docs map[uint64]*stubDoc }
+type topnStubReader struct{ docs map[uint64]*topnStubDoc }
 
-type stubDVR struct {
-	r      *stubReader
+type topnStubDVR struct {
+	r      *topnStubReader
 	fields []string
 }
 
 // as ice does: every field named in the reader's list is visited, in list order (a field named
 // twice is visited twice)
-func (d *stubDVR) VisitDocumentValues(number uint64, visitor segment.DocumentValueVisitor) error {
+func (d *topnStubDVR) VisitDocumentValues(number uint64, visitor segment.DocumentValueVisitor) error {
 	doc := d.r.docs[number]
 	if doc == nil {
 		return fmt.Errorf("no such doc %d", number)
 	}
 	for _, f := range d.fields {
-		for _, t := range doc.dv[fieldID(f)] {
+		for _, t := range doc.dv[topnFieldID(f)] {
 			visitor(f, t)
 		}
 	}
 	return nil
 }
 
-func (r *stubReader) DocumentValueReader(fields []string) (segment.DocumentValueReader, error) {
-	return &stubDVR{r: r, fields: append([]string{}, fields...)}, nil
+func (r *topnStubReader) DocumentValueReader(fields []string) (segment.DocumentValueReader, error) {
+	return &topnStubDVR{r: r, fields: append([]string{}, fields...)}, nil
 }
 
-func (r *stubReader) VisitStoredFields(number uint64, visitor segment.StoredFieldVisitor) error {
+func (r *topnStubReader) VisitStoredFields(number uint64, visitor segment.StoredFieldVisitor) error {
 	return nil
 }
 
-type stubSearcher struct {
-	docs   []*stubDoc
+type topnStubSearcher struct {
+	docs   []*topnStubDoc
 	i      int
-	reader *stubReader
+	reader *topnStubReader
 }
 
-func newStubSearcher(docs []*stubDoc) *stubSearcher {
-	r := &stubReader{docs: map[uint64]*stubDoc{}}
+func topnNewStubSearcher(docs []*topnStubDoc) *topnStubSearcher {
+	r := &topnStubReader{docs: map[uint64]*topnStubDoc{}}
 	for _, d := range docs {
 		r.docs[d.number] = d
 	}
-	return &stubSearcher{docs: docs, reader: r}
+	return &topnStubSearcher{docs: docs, reader: r}
 }
 
-func (s *stubSearcher) Next(ctx *search.Context) (*search.DocumentMatch, error) {
+func (s *topnStubSearcher) Next(ctx *search.Context) (*search.DocumentMatch, error) {
 	if s.i >= len(s.docs) {
 		return nil, nil
 	}
@@ -106,17 +106,17 @@ func (s *stubSearcher) Next(ctx *search.Context) (*search.DocumentMatch, error) 
 	m.SetReader(s.reader)
 	return m, nil
 }
-func (s *stubSearcher) DocumentMatchPoolSize() int { return 0 }
-func (s *stubSearcher) Close() error               { return nil }
+func (s *topnStubSearcher) DocumentMatchPoolSize() int { return 0 }
+func (s *topnStubSearcher) Close() error               { return nil }
 
-// tableSource: a caller-defined TextValueSource without fields
-type tableSource struct {
+// topnTableSource: a caller-defined TextValueSource without fields
+type topnTableSource struct {
 	col  int
-	docs map[uint64]*stubDoc
+	docs map[uint64]*topnStubDoc
 }
 
-func (t *tableSource) Fields() []string { return nil }
-func (t *tableSource) Value(m *search.DocumentMatch) []byte {
+func (t *topnTableSource) Fields() []string { return nil }
+func (t *topnTableSource) Value(m *search.DocumentMatch) []byte {
 	d := t.docs[m.Number]
 	if d == nil || t.col >= len(d.tab) {
 		return nil
@@ -126,7 +126,7 @@ func (t *tableSource) Value(m *search.DocumentMatch) []byte {
 
 // numeric doc values as a segment returns them: sorted distinct terms; the stub keeps the
 // shift-0 and the shift-4 token of every value (ice keeps all sixteen)
-func numericTerms(vals []float64) [][]byte {
+func topnNumericTerms(vals []float64) [][]byte {
 	var out [][]byte
 	seen := map[string]bool{}
 	for _, v := range vals {
@@ -143,7 +143,7 @@ func numericTerms(vals []float64) [][]byte {
 	return out
 }
 
-func dateTerms(ns []int64) [][]byte {
+func topnDateTerms(ns []int64) [][]byte {
 	var out [][]byte
 	seen := map[string]bool{}
 	for _, v := range ns {
@@ -159,7 +159,7 @@ func dateTerms(ns []int64) [][]byte {
 	return out
 }
 
-func keywordTerms(vals []string) [][]byte {
+func topnKeywordTerms(vals []string) [][]byte {
 	var out [][]byte
 	seen := map[string]bool{}
 	for _, v := range vals {
@@ -174,14 +174,14 @@ func keywordTerms(vals []string) [][]byte {
 
 // ---------------------------------------------------------------- Coq printing
 
-func coqOptBytes(b []byte) string {
+func topnCoqOptBytes(b []byte) string {
 	if b == nil {
 		return "None"
 	}
 	return cq.Some(cq.Bytes(b))
 }
 
-func coqRawHit(number uint64, score float64, dv map[int][][]byte, tab [][]byte) string {
+func topnCoqRawHit(number uint64, score float64, dv map[int][][]byte, tab [][]byte) string {
 	ids := make([]int, 0, len(dv))
 	for id := range dv {
 		ids = append(ids, id)
@@ -196,12 +196,12 @@ func coqRawHit(number uint64, score float64, dv map[int][][]byte, tab [][]byte) 
 	}
 	tabs := make([]string, len(tab))
 	for i, t := range tab {
-		tabs[i] = coqOptBytes(t)
+		tabs[i] = topnCoqOptBytes(t)
 	}
 	return fmt.Sprintf("(Build_rawhit %s %s %s %s)", cq.U(number), cq.U(math.Float64bits(score)), cq.List(dvs), cq.List(tabs))
 }
 
-type sortComp struct {
+type topnSortComp struct {
 	kind  int // 0 score, 1 field, 2 table
 	field int
 	col   int
@@ -209,7 +209,7 @@ type sortComp struct {
 	first bool
 }
 
-func (c sortComp) coq() string {
+func (c topnSortComp) coq() string {
 	src := "TSScore"
 	switch c.kind {
 	case 1:
@@ -220,11 +220,11 @@ func (c sortComp) coq() string {
 	return fmt.Sprintf("(Build_sortspec %s %s %s)", src, cq.B(c.desc), cq.B(c.first))
 }
 
-func (c sortComp) String() string {
+func (c topnSortComp) String() string {
 	s := "_score"
 	switch c.kind {
 	case 1:
-		s = fieldName(c.field)
+		s = topnFieldName(c.field)
 	case 2:
 		s = fmt.Sprintf("tab%d", c.col)
 	}
@@ -237,7 +237,7 @@ func (c sortComp) String() string {
 	return s
 }
 
-func coqOrder(o []sortComp) string {
+func topnCoqOrder(o []topnSortComp) string {
 	it := make([]string, len(o))
 	for i, c := range o {
 		it[i] = c.coq()
@@ -245,7 +245,7 @@ func coqOrder(o []sortComp) string {
 	return cq.List(it)
 }
 
-func orderString(o []sortComp) string {
+func topnOrderString(o []topnSortComp) string {
 	it := make([]string, len(o))
 	for i, c := range o {
 		it[i] = c.String()
@@ -253,7 +253,7 @@ func orderString(o []sortComp) string {
 	return strings.Join(it, ",")
 }
 
-func buildOrder(o []sortComp, docs map[uint64]*stubDoc, nameOf func(int) string) search.SortOrder {
+func topnBuildOrder(o []topnSortComp, docs map[uint64]*topnStubDoc, nameOf func(int) string) search.SortOrder {
 	var so search.SortOrder
 	for _, c := range o {
 		var src search.TextValueSource
@@ -263,7 +263,7 @@ func buildOrder(o []sortComp, docs map[uint64]*stubDoc, nameOf func(int) string)
 		case 1:
 			src = search.Field(nameOf(c.field))
 		default:
-			src = &tableSource{col: c.col, docs: docs}
+			src = &topnTableSource{col: c.col, docs: docs}
 		}
 		s := search.SortBy(src)
 		if c.desc {
@@ -277,12 +277,12 @@ func buildOrder(o []sortComp, docs map[uint64]*stubDoc, nameOf func(int) string)
 	return so
 }
 
-type hitObs struct {
+type topnHitObs struct {
 	number uint64
 	sortv  [][]byte
 }
 
-func coqObs(res []hitObs, panicked bool) string {
+func topnCoqObs(res []topnHitObs, panicked bool) string {
 	if panicked {
 		return "None"
 	}
@@ -293,10 +293,10 @@ func coqObs(res []hitObs, panicked bool) string {
 	return cq.Some(cq.List(it))
 }
 
-func coqKey(k [][]byte) string { return cq.BytesList(k) }
+func topnCoqKey(k [][]byte) string { return cq.BytesList(k) }
 
-func drain(it search.DocumentMatchIterator) ([]hitObs, error) {
-	var out []hitObs
+func topnDrain(it search.DocumentMatchIterator) ([]topnHitObs, error) {
+	var out []topnHitObs
 	for {
 		m, err := it.Next()
 		if err != nil {
@@ -309,13 +309,13 @@ func drain(it search.DocumentMatchIterator) ([]hitObs, error) {
 		for i, b := range m.SortValue {
 			sv[i] = append([]byte{}, b...)
 		}
-		out = append(out, hitObs{number: m.Number, sortv: sv})
+		out = append(out, topnHitObs{number: m.Number, sortv: sv})
 	}
 }
 
-// runDirect drives the collector; after == nil selects NewTopNCollector.
-func runDirect(docs []*stubDoc, so search.SortOrder, size, skip int, after [][]byte, reverse bool,
-	aggs search.Aggregations) (res []hitObs, bucket *search.Bucket, panicked bool, perr interface{}) {
+// topnRunDirect drives the collector; after == nil selects NewTopNCollector.
+func topnRunDirect(docs []*topnStubDoc, so search.SortOrder, size, skip int, after [][]byte, reverse bool,
+	aggs search.Aggregations) (res []topnHitObs, bucket *search.Bucket, panicked bool, perr interface{}) {
 	defer func() {
 		if r := recover(); r != nil {
 			res, bucket, panicked, perr = nil, nil, true, r
@@ -330,11 +330,11 @@ func runDirect(docs []*stubDoc, so search.SortOrder, size, skip int, after [][]b
 	if aggs == nil {
 		aggs = search.Aggregations{}
 	}
-	it, err := c.Collect(context.Background(), aggs, newStubSearcher(docs))
+	it, err := c.Collect(context.Background(), aggs, topnNewStubSearcher(docs))
 	if err != nil {
 		panic(err)
 	}
-	res, err = drain(it)
+	res, err = topnDrain(it)
 	if err != nil {
 		panic(err)
 	}
@@ -343,14 +343,14 @@ func runDirect(docs []*stubDoc, so search.SortOrder, size, skip int, after [][]b
 
 // ---------------------------------------------------------------- the reference ranking (oracle)
 
-type refKey struct {
+type topnRefKey struct {
 	present bool
 	b       []byte
 }
 
-// refCompare: the documented order: per component present values bytewise (descending negates),
+// topnRefCompare: the documented order: per component present values bytewise (descending negates),
 // a missing value first or last as requested, remaining ties by index order (stable sort).
-func refCompare(o []sortComp, a, b []refKey) int {
+func topnRefCompare(o []topnSortComp, a, b []topnRefKey) int {
 	for x, c := range o {
 		ka, kb := a[x], b[x]
 		switch {
@@ -379,30 +379,30 @@ func refCompare(o []sortComp, a, b []refKey) int {
 	return 0
 }
 
-var implLowTerm = []byte{0x00}
-var implHighTerm = bytes.Repeat([]byte{0xff}, 10)
+var topnImplLowTerm = []byte{0x00}
+var topnImplHighTerm = bytes.Repeat([]byte{0xff}, 10)
 
 // a present key at or beyond the sentinels substituted for missing values
-func keyCollides(k refKey) bool {
-	return k.present && (bytes.Compare(k.b, implLowTerm) <= 0 || bytes.Compare(k.b, implHighTerm) >= 0)
+func topnKeyCollides(k topnRefKey) bool {
+	return k.present && (bytes.Compare(k.b, topnImplLowTerm) <= 0 || bytes.Compare(k.b, topnImplHighTerm) >= 0)
 }
 
-type refRanking struct {
+type topnRefRanking struct {
 	order    []int // indexes into the hit list, best first
 	distinct bool  // the order distinguishes all matches
 	collide  bool  // some present key collides with a sentinel while some value of that component is missing
 }
 
-func rank(o []sortComp, keys [][]refKey) refRanking {
+func topnRank(o []topnSortComp, keys [][]topnRefKey) topnRefRanking {
 	n := len(keys)
 	idx := make([]int, n)
 	for i := range idx {
 		idx[i] = i
 	}
-	sort.SliceStable(idx, func(a, b int) bool { return refCompare(o, keys[idx[a]], keys[idx[b]]) < 0 })
-	rr := refRanking{order: idx, distinct: true}
+	sort.SliceStable(idx, func(a, b int) bool { return topnRefCompare(o, keys[idx[a]], keys[idx[b]]) < 0 })
+	rr := topnRefRanking{order: idx, distinct: true}
 	for i := 0; i+1 < n; i++ {
-		if refCompare(o, keys[idx[i]], keys[idx[i+1]]) == 0 {
+		if topnRefCompare(o, keys[idx[i]], keys[idx[i+1]]) == 0 {
 			rr.distinct = false
 		}
 	}
@@ -412,7 +412,7 @@ func rank(o []sortComp, keys [][]refKey) refRanking {
 			if !k[x].present {
 				missing = true
 			}
-			if keyCollides(k[x]) {
+			if topnKeyCollides(k[x]) {
 				coll = true
 			}
 		}
@@ -423,7 +423,7 @@ func rank(o []sortComp, keys [][]refKey) refRanking {
 	return rr
 }
 
-func sliceOf(order []int, from, n int) []int {
+func topnSliceOf(order []int, from, n int) []int {
 	if from < 0 {
 		from = 0
 	}
@@ -440,7 +440,7 @@ func sliceOf(order []int, from, n int) []int {
 	return order[from:end]
 }
 
-func sameNumbers(res []hitObs, want []int, numberOf func(int) uint64) bool {
+func topnSameNumbers(res []topnHitObs, want []int, numberOf func(int) uint64) bool {
 	if len(res) != len(want) {
 		return false
 	}
@@ -452,7 +452,7 @@ func sameNumbers(res []hitObs, want []int, numberOf func(int) uint64) bool {
 	return true
 }
 
-func numbersOf(res []hitObs) []uint64 {
+func topnNumbersOf(res []topnHitObs) []uint64 {
 	out := make([]uint64, len(res))
 	for i, h := range res {
 		out[i] = h.number
@@ -462,48 +462,64 @@ func numbersOf(res []hitObs) []uint64 {
 
 // ---------------------------------------------------------------- generators
 
-var kwAlphabet = []string{"a", "b", "ab", "b", "a", "c", "aa", "zz"}
-var kwExotic = []string{"", "\x00", "\x00\x00", "\xff\xff\xff\xff\xff\xff\xff\xff\xff\xff", "\xff\xff\xff\xff\xff\xff\xff\xff\xff\xff\xff", "\xff"}
-var numAlphabet = []float64{-2, -1, 0, 1, 1, 2, 3, 1000, -1000, 0.5}
-var scoreAlphabet = []float64{1, 1, 2, 0.5, 1.5}
-var dateAlphabet = []int64{0, 1, -1, 1600000000000000000, 1600000000000000001, 946684800000000000}
+var topnKwAlphabet = []string{"a", "b", "ab", "b", "a", "c", "aa", "zz"}
+var topnKwExotic = []string{"", "\x00", "\x00\x00", "\xff\xff\xff\xff\xff\xff\xff\xff\xff\xff", "\xff\xff\xff\xff\xff\xff\xff\xff\xff\xff\xff", "\xff"}
+var topnNumAlphabet = []float64{-2, -1, 0, 1, 1, 2, 3, 1000, -1000, 0.5}
+var topnScoreAlphabet = []float64{1, 1, 2, 0.5, 1.5}
+var topnDateAlphabet = []int64{0, 1, -1, 1600000000000000000, 1600000000000000001, 946684800000000000}
 
 // direct-drive fields: f0 keyword, f1 numeric, f2 date, f3 keyword (multi-valued)
-func genStubDocs(rng *rand.Rand, n int, exotic bool, ncols int, uniqueCol int) []*stubDoc {
-	docs := make([]*stubDoc, n)
+func topnGenStubDocs(rng *rand.Rand, n int, exotic bool, ncols int, uniqueCol int) []*topnStubDoc {
+	docs := make([]*topnStubDoc, n)
 	perm := rng.Perm(n)
 	num := uint64(rng.Intn(3))
 	for i := 0; i < n; i++ {
 		num += uint64(1 + rng.Intn(3))
-		d := &stubDoc{number: num, score: scoreAlphabet[rng.Intn(len(scoreAlphabet))],
+		d := &topnStubDoc{number: num, score: topnScoreAlphabet[rng.Intn(len(topnScoreAlphabet))],
 			dv: map[int][][]byte{}, kw: map[int][]string{}, nums: map[int][]float64{}, dates: map[int][]int64{}}
 		if rng.Intn(5) != 0 {
-			v := kwAlphabet[rng.Intn(len(kwAlphabet))]
+			v := topnKwAlphabet[rng.Intn(len(topnKwAlphabet))]
 			if exotic && rng.Intn(4) == 0 {
-				v = kwExotic[rng.Intn(len(kwExotic))]
+				v = topnKwExotic[rng.Intn(len(topnKwExotic))]
 			}
 			d.kw[0] = []string{v}
 		}
 		if rng.Intn(5) != 0 {
-			d.nums[1] = []float64{numAlphabet[rng.Intn(len(numAlphabet))]}
+			d.nums[1] = []float64{topnNumAlphabet[rng.Intn(len(topnNumAlphabet))]}
 			if rng.Intn(6) == 0 {
-				d.nums[1] = append(d.nums[1], numAlphabet[rng.Intn(len(numAlphabet))])
+				if v := topnNumAlphabet[rng.Intn(len(topnNumAlphabet))]; v != d.nums[1][0] {
+					d.nums[1] = append(d.nums[1], v)
+				}
 			}
 		}
 		if rng.Intn(5) != 0 {
-			d.dates[2] = []int64{dateAlphabet[rng.Intn(len(dateAlphabet))]}
+			d.dates[2] = []int64{topnDateAlphabet[rng.Intn(len(topnDateAlphabet))]}
 		}
 		for k := rng.Intn(3); k > 0; k-- {
-			d.kw[3] = append(d.kw[3], kwAlphabet[rng.Intn(len(kwAlphabet))])
+			d.kw[3] = append(d.kw[3], topnKwAlphabet[rng.Intn(len(topnKwAlphabet))])
+		}
+		// f5 numeric multi-valued (distinct values), f6 positive integer weight: read by the aggs engine only
+		for k := rng.Intn(4); k > 0; k-- {
+			v := topnNumAlphabet[rng.Intn(len(topnNumAlphabet))]
+			dup := false
+			for _, x := range d.nums[5] {
+				dup = dup || x == v
+			}
+			if !dup {
+				d.nums[5] = append(d.nums[5], v)
+			}
+		}
+		if rng.Intn(4) != 0 {
+			d.nums[6] = []float64{float64(1 + rng.Intn(4))}
 		}
 		for f, v := range d.kw {
-			d.dv[f] = keywordTerms(v)
+			d.dv[f] = topnKeywordTerms(v)
 		}
 		for f, v := range d.nums {
-			d.dv[f] = numericTerms(v)
+			d.dv[f] = topnNumericTerms(v)
 		}
 		for f, v := range d.dates {
-			d.dv[f] = dateTerms(v)
+			d.dv[f] = topnDateTerms(v)
 		}
 		d.tab = make([][]byte, ncols)
 		for c := 0; c < ncols; c++ {
@@ -513,9 +529,9 @@ func genStubDocs(rng *rand.Rand, n int, exotic bool, ncols int, uniqueCol int) [
 			case rng.Intn(5) == 0:
 				d.tab[c] = nil
 			case exotic && rng.Intn(4) == 0:
-				d.tab[c] = []byte(kwExotic[rng.Intn(len(kwExotic))])
+				d.tab[c] = []byte(topnKwExotic[rng.Intn(len(topnKwExotic))])
 			default:
-				d.tab[c] = []byte(kwAlphabet[rng.Intn(len(kwAlphabet))])
+				d.tab[c] = []byte(topnKwAlphabet[rng.Intn(len(topnKwAlphabet))])
 			}
 		}
 		docs[i] = d
@@ -523,11 +539,11 @@ func genStubDocs(rng *rand.Rand, n int, exotic bool, ncols int, uniqueCol int) [
 	return docs
 }
 
-func genOrder(rng *rand.Rand, ncols int, uniqueCol int) []sortComp {
+func topnGenOrder(rng *rand.Rand, ncols int, uniqueCol int) []topnSortComp {
 	k := 1 + rng.Intn(3)
-	var o []sortComp
+	var o []topnSortComp
 	for i := 0; i < k; i++ {
-		c := sortComp{desc: rng.Intn(2) == 0, first: rng.Intn(2) == 0}
+		c := topnSortComp{desc: rng.Intn(2) == 0, first: rng.Intn(2) == 0}
 		switch rng.Intn(6) {
 		case 0:
 			c.kind = 0
@@ -547,32 +563,32 @@ func genOrder(rng *rand.Rand, ncols int, uniqueCol int) []sortComp {
 		o = append(o, c)
 	}
 	if uniqueCol >= 0 {
-		o = append(o, sortComp{kind: 2, col: uniqueCol, desc: rng.Intn(2) == 0, first: rng.Intn(2) == 0})
+		o = append(o, topnSortComp{kind: 2, col: uniqueCol, desc: rng.Intn(2) == 0, first: rng.Intn(2) == 0})
 	}
 	return o
 }
 
 // reference keys of the stub documents, from the generator's own knowledge of the values
-func stubRefKeys(o []sortComp, docs []*stubDoc) (keys [][]refKey, multi bool) {
-	keys = make([][]refKey, len(docs))
+func topnStubRefKeys(o []topnSortComp, docs []*topnStubDoc) (keys [][]topnRefKey, multi bool) {
+	keys = make([][]topnRefKey, len(docs))
 	for i, d := range docs {
-		keys[i] = make([]refKey, len(o))
+		keys[i] = make([]topnRefKey, len(o))
 		for x, c := range o {
 			switch c.kind {
 			case 0:
-				keys[i][x] = refKey{true, numeric.MustNewPrefixCodedInt64(numeric.Float64ToInt64(d.score), 0)}
+				keys[i][x] = topnRefKey{true, numeric.MustNewPrefixCodedInt64(numeric.Float64ToInt64(d.score), 0)}
 			case 2:
 				if d.tab[c.col] != nil {
-					keys[i][x] = refKey{true, d.tab[c.col]}
+					keys[i][x] = topnRefKey{true, d.tab[c.col]}
 				}
 			default:
 				switch {
 				case len(d.kw[c.field]) > 0:
-					vs := keywordTerms(d.kw[c.field])
+					vs := topnKeywordTerms(d.kw[c.field])
 					if len(vs) > 1 {
 						multi = true
 					}
-					keys[i][x] = refKey{true, vs[0]}
+					keys[i][x] = topnRefKey{true, vs[0]}
 				case len(d.nums[c.field]) > 0:
 					if len(d.nums[c.field]) > 1 {
 						multi = true
@@ -583,9 +599,9 @@ func stubRefKeys(o []sortComp, docs []*stubDoc) (keys [][]refKey, multi bool) {
 							m = v
 						}
 					}
-					keys[i][x] = refKey{true, numeric.MustNewPrefixCodedInt64(numeric.Float64ToInt64(m), 0)}
+					keys[i][x] = topnRefKey{true, numeric.MustNewPrefixCodedInt64(numeric.Float64ToInt64(m), 0)}
 				case len(d.dates[c.field]) > 0:
-					keys[i][x] = refKey{true, numeric.MustNewPrefixCodedInt64(d.dates[c.field][0], 0)}
+					keys[i][x] = topnRefKey{true, numeric.MustNewPrefixCodedInt64(d.dates[c.field][0], 0)}
 				}
 			}
 		}
@@ -593,7 +609,7 @@ func stubRefKeys(o []sortComp, docs []*stubDoc) (keys [][]refKey, multi bool) {
 	return keys, multi
 }
 
-func gridValues(rng *rand.Rand, cnt int, sw int) (sizes, skips []int) {
+func topnGridValues(rng *rand.Rand, cnt int, sw int) (sizes, skips []int) {
 	set := func(vs ...int) []int {
 		m := map[int]bool{}
 		var out []int
@@ -611,9 +627,9 @@ func gridValues(rng *rand.Rand, cnt int, sw int) (sizes, skips []int) {
 	return
 }
 
-const switchPoint = 10 // only steers the grid; the model takes the constant from T-gen
+const topnSwitchPoint = 10 // only steers the grid; the model takes the constant from T-gen
 
-func failKey(base string, rr refRanking) string {
+func topnFailKey(base string, rr topnRefRanking) string {
 	if rr.collide {
 		return "C09-sentinel-collision"
 	}
@@ -622,8 +638,8 @@ func failKey(base string, rr refRanking) string {
 
 func runTopN(o Opts) error {
 	rng := rand.New(rand.NewSource(o.Seed))
-	w := cq.New(o.Out, "From Bluge Require Import Base.Res Search.Sort Search.TopN Search.TopNCorr.", "tcase", 4)
-	nLists, nIdx := 110, 14
+	w := cq.New(o.Out, "From Bluge Require Import Base.Res Search.Sort Search.TopN Search.TopNCorr.", "tcase", 16)
+	nLists, nIdx := 90, 10
 	if o.Thorough() {
 		nLists, nIdx = 1200, 120
 	}
@@ -640,7 +656,7 @@ func runTopN(o Opts) error {
 			if descs[x] {
 				so[x].Desc()
 			}
-			pool := append(append([]string{}, kwAlphabet...), kwExotic...)
+			pool := append(append([]string{}, topnKwAlphabet...), topnKwExotic...)
 			ka[x] = []byte(pool[rng.Intn(len(pool))])
 			kb[x] = []byte(pool[rng.Intn(len(pool))])
 			if rng.Intn(2) == 0 {
@@ -680,17 +696,17 @@ func runTopN(o Opts) error {
 		if rng.Intn(5) < 2 {
 			uniqueCol = rng.Intn(ncols)
 		}
-		docs := genStubDocs(rng, n, exotic, ncols, uniqueCol)
-		order := genOrder(rng, ncols, uniqueCol)
-		docMap := map[uint64]*stubDoc{}
+		docs := topnGenStubDocs(rng, n, exotic, ncols, uniqueCol)
+		order := topnGenOrder(rng, ncols, uniqueCol)
+		docMap := map[uint64]*topnStubDoc{}
 		for _, d := range docs {
 			docMap[d.number] = d
 		}
-		mkOrder := func() search.SortOrder { return buildOrder(order, docMap, fieldName) }
-		keys, multi := stubRefKeys(order, docs)
-		rr := rank(order, keys)
+		mkOrder := func() search.SortOrder { return topnBuildOrder(order, docMap, topnFieldName) }
+		keys, multi := topnStubRefKeys(order, docs)
+		rr := topnRank(order, keys)
 		numberOf := func(i int) uint64 { return docs[i].number }
-		meta := map[string]interface{}{"hits": n, "order": orderString(order), "exotic": exotic, "distinct": rr.distinct}
+		meta := map[string]interface{}{"hits": n, "order": topnOrderString(order), "exotic": exotic, "distinct": rr.distinct}
 		w.Count("direct:hits", n)
 		if rr.distinct {
 			w.Count("direct:distinguishing-orders", 1)
@@ -701,7 +717,7 @@ func runTopN(o Opts) error {
 
 		var dqs []string
 		var qmeta []string
-		sizes, skips := gridValues(rng, n, switchPoint)
+		sizes, skips := topnGridValues(rng, n, topnSwitchPoint)
 		type pt struct{ size, skip int }
 		var pts []pt
 		for _, s := range sizes {
@@ -714,37 +730,37 @@ func runTopN(o Opts) error {
 		if len(pts) < keep {
 			keep = len(pts)
 		}
-		pts = append(pts[:keep], pt{0, 0}, pt{switchPoint, 0}, pt{switchPoint + 1, 0}, pt{n + 1, 0}, pt{3, n})
+		pts = append(pts[:keep], pt{0, 0}, pt{topnSwitchPoint, 0}, pt{topnSwitchPoint + 1, 0}, pt{n + 1, 0}, pt{3, n})
 		for _, p := range pts {
-			res, _, panicked, _ := runDirect(docs, mkOrder(), p.size, p.skip, nil, false, nil)
-			dqs = append(dqs, fmt.Sprintf("DQ %s %s None false %s", cq.I(p.size), cq.I(p.skip), coqObs(res, panicked)))
-			qmeta = append(qmeta, fmt.Sprintf("size=%d skip=%d -> %v", p.size, p.skip, numbersOf(res)))
+			res, _, panicked, _ := topnRunDirect(docs, mkOrder(), p.size, p.skip, nil, false, nil)
+			dqs = append(dqs, fmt.Sprintf("DQ %s %s None false %s", cq.I(p.size), cq.I(p.skip), topnCoqObs(res, panicked)))
+			qmeta = append(qmeta, fmt.Sprintf("size=%d skip=%d -> %v", p.size, p.skip, topnNumbersOf(res)))
 			w.Count("direct:queries", 1)
 			if !multi {
 				w.OracleEval(1)
-				want := sliceOf(rr.order, p.skip, p.size)
-				if panicked || !sameNumbers(res, want, numberOf) {
+				want := topnSliceOf(rr.order, p.skip, p.size)
+				if panicked || !topnSameNumbers(res, want, numberOf) {
 					wantN := make([]uint64, len(want))
 					for i, x := range want {
 						wantN[i] = numberOf(x)
 					}
-					w.OracleFail(failKey("C09-topn-slice", rr), "result is not the [from, from+n) slice of the complete ranking",
-						map[string]interface{}{"order": orderString(order), "size": p.size, "skip": p.skip, "got": numbersOf(res), "want": wantN,
-							"hits": describeStub(docs), "panicked": panicked})
+					w.OracleFail(topnFailKey("C09-topn-slice", rr), "result is not the [from, from+n) slice of the complete ranking",
+						map[string]interface{}{"order": topnOrderString(order), "size": p.size, "skip": p.skip, "got": topnNumbersOf(res), "want": wantN,
+							"hits": topnDescribeStub(docs), "panicked": panicked})
 				}
 			}
 		}
 		// negative arguments (run-time panics of the constructors / Final)
 		if li%10 == 0 {
-			for _, p := range []pt{{-1, 0}, {-3, 0}, {2, -1}, {-1, 4}, {switchPoint + 4, -2}} {
-				res, _, panicked, _ := runDirect(docs, mkOrder(), p.size, p.skip, nil, false, nil)
-				dqs = append(dqs, fmt.Sprintf("DQ %s %s None false %s", cq.I(p.size), cq.I(p.skip), coqObs(res, panicked)))
-				qmeta = append(qmeta, fmt.Sprintf("size=%d skip=%d -> %v panicked=%v", p.size, p.skip, numbersOf(res), panicked))
+			for _, p := range []pt{{-1, 0}, {-3, 0}, {2, -1}, {-1, 4}, {topnSwitchPoint + 4, -2}} {
+				res, _, panicked, _ := topnRunDirect(docs, mkOrder(), p.size, p.skip, nil, false, nil)
+				dqs = append(dqs, fmt.Sprintf("DQ %s %s None false %s", cq.I(p.size), cq.I(p.skip), topnCoqObs(res, panicked)))
+				qmeta = append(qmeta, fmt.Sprintf("size=%d skip=%d -> %v panicked=%v", p.size, p.skip, topnNumbersOf(res), panicked))
 				w.Count("direct:negative-arguments", 1)
 			}
 		}
 		// search-after / reverse with keys taken from hits, random keys, short keys
-		full, _, _, _ := runDirect(docs, mkOrder(), n+1, 0, nil, false, nil)
+		full, _, _, _ := topnRunDirect(docs, mkOrder(), n+1, 0, nil, false, nil)
 		posOf := map[uint64]int{}
 		for i, x := range rr.order {
 			posOf[numberOf(x)] = i
@@ -760,41 +776,41 @@ func runTopN(o Opts) error {
 			case q == 4:
 				key = make([][]byte, len(order))
 				for x := range key {
-					key[x] = []byte(kwAlphabet[rng.Intn(len(kwAlphabet))])
+					key[x] = []byte(topnKwAlphabet[rng.Intn(len(topnKwAlphabet))])
 				}
 			case q == 5 && len(order) > 1:
-				key = [][]byte{[]byte(kwAlphabet[rng.Intn(len(kwAlphabet))])} // too short: panics when the first component ties
+				key = [][]byte{[]byte(topnKwAlphabet[rng.Intn(len(topnKwAlphabet))])} // too short: panics when the first component ties
 			default:
 				key = make([][]byte, len(order)+1)
 				for x := range key {
-					key[x] = []byte(kwAlphabet[rng.Intn(len(kwAlphabet))])
+					key[x] = []byte(topnKwAlphabet[rng.Intn(len(topnKwAlphabet))])
 				}
 			}
-			size := []int{0, 1, 2, 3, switchPoint, switchPoint + 1, n}[rng.Intn(7)]
+			size := []int{0, 1, 2, 3, topnSwitchPoint, topnSwitchPoint + 1, n}[rng.Intn(7)]
 			reverse := rng.Intn(4) == 0
-			res, _, panicked, _ := runDirect(docs, mkOrder(), size, 0, key, reverse, nil)
-			dqs = append(dqs, fmt.Sprintf("DQ %s 0 (Some %s) %s %s", cq.I(size), coqKey(key), cq.B(reverse), coqObs(res, panicked)))
-			qmeta = append(qmeta, fmt.Sprintf("size=%d after=%q reverse=%v -> %v panicked=%v", size, key, reverse, numbersOf(res), panicked))
+			res, _, panicked, _ := topnRunDirect(docs, mkOrder(), size, 0, key, reverse, nil)
+			dqs = append(dqs, fmt.Sprintf("DQ %s 0 (Some %s) %s %s", cq.I(size), topnCoqKey(key), cq.B(reverse), topnCoqObs(res, panicked)))
+			qmeta = append(qmeta, fmt.Sprintf("size=%d after=%q reverse=%v -> %v panicked=%v", size, key, reverse, topnNumbersOf(res), panicked))
 			w.Count("direct:after-queries", 1)
 			if from >= 0 && rr.distinct && !multi && !reverse {
 				w.OracleEval(1)
-				want := sliceOf(rr.order, from+1, size)
-				if panicked || !sameNumbers(res, want, numberOf) {
-					w.OracleFail(failKey("C09-after-page", rr), "search-after page is not the next n matches of the ranking",
-						map[string]interface{}{"order": orderString(order), "size": size, "after": fmt.Sprintf("%q", key), "got": numbersOf(res),
-							"hits": describeStub(docs)})
+				want := topnSliceOf(rr.order, from+1, size)
+				if panicked || !topnSameNumbers(res, want, numberOf) {
+					w.OracleFail(topnFailKey("C09-after-page", rr), "search-after page is not the next n matches of the ranking",
+						map[string]interface{}{"order": topnOrderString(order), "size": size, "after": fmt.Sprintf("%q", key), "got": topnNumbersOf(res),
+							"hits": topnDescribeStub(docs)})
 				}
 			}
 		}
 		// chained search-after under a distinguishing order: every match once, in order
 		if rr.distinct && !multi && n > 0 {
-			for _, page := range []int{1, 2, 3, 7, switchPoint, switchPoint + 1} {
+			for _, page := range []int{1, 2, 3, 7, topnSwitchPoint, topnSwitchPoint + 1} {
 				var seen []uint64
-				res, _, _, _ := runDirect(docs, mkOrder(), page, 0, nil, false, nil)
+				res, _, _, _ := topnRunDirect(docs, mkOrder(), page, 0, nil, false, nil)
 				guard := 0
 				for len(res) > 0 && guard < n+3 {
-					seen = append(seen, numbersOf(res)...)
-					res, _, _, _ = runDirect(docs, mkOrder(), page, 0, res[len(res)-1].sortv, false, nil)
+					seen = append(seen, topnNumbersOf(res)...)
+					res, _, _, _ = topnRunDirect(docs, mkOrder(), page, 0, res[len(res)-1].sortv, false, nil)
 					guard++
 				}
 				w.OracleEval(1)
@@ -804,17 +820,17 @@ func runTopN(o Opts) error {
 					ok = seen[i] == numberOf(rr.order[i])
 				}
 				if !ok {
-					w.OracleFail(failKey("C09-paging-covers", rr), "chained search-after does not visit every match once in order",
-						map[string]interface{}{"order": orderString(order), "page": page, "visited": seen, "hits": describeStub(docs)})
+					w.OracleFail(topnFailKey("C09-paging-covers", rr), "chained search-after does not visit every match once in order",
+						map[string]interface{}{"order": topnOrderString(order), "page": page, "visited": seen, "hits": topnDescribeStub(docs)})
 				}
 			}
 		}
 		hs := make([]string, len(docs))
 		for i, d := range docs {
-			hs[i] = coqRawHit(d.number, d.score, d.dv, d.tab)
+			hs[i] = topnCoqRawHit(d.number, d.score, d.dv, d.tab)
 		}
 		meta["queries"] = qmeta
-		w.Add(fmt.Sprintf("CTopN %s [] %s\n %s []", coqOrder(order), cq.List(hs), cq.List(dqs)), "direct", n > 1 && len(order) > 0, meta)
+		w.Add(fmt.Sprintf("CTopN %s [] %s\n %s []", topnCoqOrder(order), cq.List(hs), cq.List(dqs)), "direct", n > 1 && len(order) > 0, meta)
 	}
 
 	// ---- (b) end to end: TopNSearch against AllMatches on in-memory indexes
@@ -828,18 +844,31 @@ func runTopN(o Opts) error {
 	return nil
 }
 
-func describeStub(docs []*stubDoc) []string {
+func topnDescribeStub(docs []*topnStubDoc) []string {
 	out := make([]string, len(docs))
 	for i, d := range docs {
-		out[i] = fmt.Sprintf("#%d score=%v kw=%q nums=%v dates=%v tab=%q", d.number, d.score, d.kw, d.nums, d.dates, d.tab)
+		out[i] = fmt.Sprintf("#%d score=%v kw=%s nums=%v dates=%v tab=%q", d.number, d.score, topnKwString(d.kw), d.nums, d.dates, d.tab)
 	}
 	return out
+}
+
+func topnKwString(m map[int][]string) string {
+	ids := make([]int, 0, len(m))
+	for id := range m {
+		ids = append(ids, id)
+	}
+	sort.Ints(ids)
+	var sb strings.Builder
+	for _, id := range ids {
+		fmt.Fprintf(&sb, "f%d:%q ", id, m[id])
+	}
+	return "{" + strings.TrimSpace(sb.String()) + "}"
 }
 
 // ---------------------------------------------------------------- end to end
 
 // index fields: f0 keyword, f1 numeric, f2 date, f4 unique keyword; "t" text for queries
-type e2eDoc struct {
+type topnE2eDoc struct {
 	id    string
 	kw    *string
 	num   []float64
@@ -849,17 +878,17 @@ type e2eDoc struct {
 }
 
 // recording aggregation: notes the doc values the collector sees for each hit
-type recAgg struct {
+type topnRecAgg struct {
 	fields []string
 	seen   *[]map[string][][]byte
 }
 
-func (r *recAgg) Fields() []string              { return r.fields }
-func (r *recAgg) Calculator() search.Calculator { return &recCalc{r} }
+func (r *topnRecAgg) Fields() []string              { return r.fields }
+func (r *topnRecAgg) Calculator() search.Calculator { return &topnRecCalc{r} }
 
-type recCalc struct{ r *recAgg }
+type topnRecCalc struct{ r *topnRecAgg }
 
-func (c *recCalc) Consume(d *search.DocumentMatch) {
+func (c *topnRecCalc) Consume(d *search.DocumentMatch) {
 	m := map[string][][]byte{}
 	for _, f := range c.r.fields {
 		for _, v := range d.DocValues(f) {
@@ -868,8 +897,8 @@ func (c *recCalc) Consume(d *search.DocumentMatch) {
 	}
 	*c.r.seen = append(*c.r.seen, m)
 }
-func (c *recCalc) Finish()                 {}
-func (c *recCalc) Merge(search.Calculator) {}
+func (c *topnRecCalc) Finish()                 {}
+func (c *topnRecCalc) Merge(search.Calculator) {}
 
 func topnEndToEnd(rng *rand.Rand, w *cq.Writer, ii int) error {
 	nd := rng.Intn(26)
@@ -883,24 +912,24 @@ func topnEndToEnd(rng *rand.Rand, w *cq.Writer, ii int) error {
 	}
 	defer wr.Close()
 	emptyKw := ii%3 == 1 // some indexes contain the empty keyword (a present key below the low sentinel)
-	docs := map[string]*e2eDoc{}
+	docs := map[string]*topnE2eDoc{}
 	perm := rng.Perm(nd)
 	vocab := []string{"red", "green", "blue"}
 	batch := bluge.NewBatch()
 	for i := 0; i < nd; i++ {
-		d := &e2eDoc{id: fmt.Sprintf("d%02d", i), uniq: fmt.Sprintf("u%03d", perm[i])}
+		d := &topnE2eDoc{id: fmt.Sprintf("d%02d", i), uniq: fmt.Sprintf("u%03d", perm[i])}
 		if rng.Intn(5) != 0 {
-			v := kwAlphabet[rng.Intn(len(kwAlphabet))]
+			v := topnKwAlphabet[rng.Intn(len(topnKwAlphabet))]
 			if emptyKw && rng.Intn(4) == 0 {
 				v = ""
 			}
 			d.kw = &v
 		}
 		if rng.Intn(5) != 0 {
-			d.num = []float64{numAlphabet[rng.Intn(len(numAlphabet))]}
+			d.num = []float64{topnNumAlphabet[rng.Intn(len(topnNumAlphabet))]}
 		}
 		if rng.Intn(5) != 0 {
-			v := dateAlphabet[rng.Intn(len(dateAlphabet))]
+			v := topnDateAlphabet[rng.Intn(len(topnDateAlphabet))]
 			d.date = &v
 		}
 		for k := 1 + rng.Intn(4); k > 0; k-- {
@@ -949,9 +978,9 @@ func topnEndToEnd(rng *rand.Rand, w *cq.Writer, ii int) error {
 	for qk := 0; qk < 3; qk++ {
 		// sort order over the index fields
 		k := 1 + rng.Intn(3)
-		var order []sortComp
+		var order []topnSortComp
 		for i := 0; i < k; i++ {
-			c := sortComp{desc: rng.Intn(2) == 0, first: rng.Intn(2) == 0}
+			c := topnSortComp{desc: rng.Intn(2) == 0, first: rng.Intn(2) == 0}
 			switch rng.Intn(5) {
 			case 0:
 				c.kind = 0
@@ -962,19 +991,19 @@ func topnEndToEnd(rng *rand.Rand, w *cq.Writer, ii int) error {
 			order = append(order, c)
 		}
 		if rng.Intn(2) == 0 {
-			order = append(order, sortComp{kind: 1, field: 4, desc: rng.Intn(2) == 0})
+			order = append(order, topnSortComp{kind: 1, field: 4, desc: rng.Intn(2) == 0})
 		}
-		mkOrder := func() search.SortOrder { return buildOrder(order, nil, fieldName) }
+		mkOrder := func() search.SortOrder { return topnBuildOrder(order, nil, topnFieldName) }
 		var fields []string
 		for _, c := range order {
 			if c.kind == 1 {
-				fields = append(fields, fieldName(c.field))
+				fields = append(fields, topnFieldName(c.field))
 			}
 		}
 		// the complete match list, in searcher order, with scores and the doc values of the sort fields
 		var seen []map[string][][]byte
 		all := bluge.NewAllMatches(mkQuery(qk))
-		all.AddAggregation("rec", &recAgg{fields: fields, seen: &seen})
+		all.AddAggregation("rec", &topnRecAgg{fields: fields, seen: &seen})
 		it, err := rd.Search(context.Background(), all)
 		if err != nil {
 			return err
@@ -982,7 +1011,7 @@ func topnEndToEnd(rng *rand.Rand, w *cq.Writer, ii int) error {
 		type match struct {
 			number uint64
 			score  float64
-			doc    *e2eDoc
+			doc    *topnE2eDoc
 		}
 		var matches []match
 		for {
@@ -1006,25 +1035,25 @@ func topnEndToEnd(rng *rand.Rand, w *cq.Writer, ii int) error {
 			return fmt.Errorf("recording aggregation saw %d hits, iterator returned %d", len(seen), len(matches))
 		}
 		n := len(matches)
-		keys := make([][]refKey, n)
+		keys := make([][]topnRefKey, n)
 		for i, m := range matches {
-			keys[i] = make([]refKey, len(order))
+			keys[i] = make([]topnRefKey, len(order))
 			for x, c := range order {
 				switch {
 				case c.kind == 0:
-					keys[i][x] = refKey{true, numeric.MustNewPrefixCodedInt64(numeric.Float64ToInt64(m.score), 0)}
+					keys[i][x] = topnRefKey{true, numeric.MustNewPrefixCodedInt64(numeric.Float64ToInt64(m.score), 0)}
 				case c.field == 0 && m.doc.kw != nil:
-					keys[i][x] = refKey{true, []byte(*m.doc.kw)}
+					keys[i][x] = topnRefKey{true, []byte(*m.doc.kw)}
 				case c.field == 1 && len(m.doc.num) > 0:
-					keys[i][x] = refKey{true, numeric.MustNewPrefixCodedInt64(numeric.Float64ToInt64(m.doc.num[0]), 0)}
+					keys[i][x] = topnRefKey{true, numeric.MustNewPrefixCodedInt64(numeric.Float64ToInt64(m.doc.num[0]), 0)}
 				case c.field == 2 && m.doc.date != nil:
-					keys[i][x] = refKey{true, numeric.MustNewPrefixCodedInt64(*m.doc.date, 0)}
+					keys[i][x] = topnRefKey{true, numeric.MustNewPrefixCodedInt64(*m.doc.date, 0)}
 				case c.field == 4:
-					keys[i][x] = refKey{true, []byte(m.doc.uniq)}
+					keys[i][x] = topnRefKey{true, []byte(m.doc.uniq)}
 				}
 			}
 		}
-		rr := rank(order, keys)
+		rr := topnRank(order, keys)
 		numberOf := func(i int) uint64 { return matches[i].number }
 		describe := func() []string {
 			out := make([]string, n)
@@ -1037,7 +1066,7 @@ func topnEndToEnd(rng *rand.Rand, w *cq.Writer, ii int) error {
 			}
 			return out
 		}
-		search1 := func(size int, from int, after, before [][]byte, so search.SortOrder) (res []hitObs, panicked bool) {
+		search1 := func(size int, from int, after, before [][]byte, so search.SortOrder) (res []topnHitObs, panicked bool) {
 			defer func() {
 				if r := recover(); r != nil {
 					res, panicked = nil, true
@@ -1056,32 +1085,32 @@ func topnEndToEnd(rng *rand.Rand, w *cq.Writer, ii int) error {
 			if err != nil {
 				panic(err)
 			}
-			res, err = drain(it)
+			res, err = topnDrain(it)
 			if err != nil {
 				panic(err)
 			}
 			return res, false
 		}
 		var rqs, qmeta []string
-		sizes, skips := gridValues(rng, n, switchPoint)
+		sizes, skips := topnGridValues(rng, n, topnSwitchPoint)
 		for _, s := range sizes {
 			for _, k := range skips {
-				if rng.Intn(3) != 0 && !(k == 0 && (s == switchPoint || s == switchPoint+1)) {
+				if rng.Intn(3) != 0 && !(k == 0 && (s == topnSwitchPoint || s == topnSwitchPoint+1)) {
 					continue
 				}
 				res, panicked := search1(s, k, nil, nil, mkOrder())
-				rqs = append(rqs, fmt.Sprintf("RQ %s (PFrom %s) %s", cq.I(s), cq.I(k), coqObs(res, panicked)))
-				qmeta = append(qmeta, fmt.Sprintf("n=%d from=%d -> %v", s, k, numbersOf(res)))
+				rqs = append(rqs, fmt.Sprintf("RQ %s (PFrom %s) %s", cq.I(s), cq.I(k), topnCoqObs(res, panicked)))
+				qmeta = append(qmeta, fmt.Sprintf("n=%d from=%d -> %v", s, k, topnNumbersOf(res)))
 				w.Count("e2e:queries", 1)
 				w.OracleEval(1)
-				want := sliceOf(rr.order, k, s)
-				if panicked || !sameNumbers(res, want, numberOf) {
+				want := topnSliceOf(rr.order, k, s)
+				if panicked || !topnSameNumbers(res, want, numberOf) {
 					wantN := make([]uint64, len(want))
 					for i, x := range want {
 						wantN[i] = numberOf(x)
 					}
-					w.OracleFail(failKey("C09-topn-slice", rr), "TopNSearch result is not the [from, from+n) slice of the ranking of AllMatches",
-						map[string]interface{}{"order": orderString(order), "n": s, "from": k, "got": numbersOf(res), "want": wantN, "matches": describe()})
+					w.OracleFail(topnFailKey("C09-topn-slice", rr), "TopNSearch result is not the [from, from+n) slice of the ranking of AllMatches",
+						map[string]interface{}{"order": topnOrderString(order), "n": s, "from": k, "got": topnNumbersOf(res), "want": wantN, "matches": describe()})
 				}
 			}
 		}
@@ -1092,23 +1121,23 @@ func topnEndToEnd(rng *rand.Rand, w *cq.Writer, ii int) error {
 		}
 		for q := 0; q < 6 && len(full) > 0; q++ {
 			h := full[rng.Intn(len(full))]
-			size := []int{0, 1, 2, 3, switchPoint + 1, n}[rng.Intn(6)]
+			size := []int{0, 1, 2, 3, topnSwitchPoint + 1, n}[rng.Intn(6)]
 			before := q%2 == 1
-			var res []hitObs
+			var res []topnHitObs
 			var panicked bool
 			if before {
 				res, panicked = search1(size, 0, nil, h.sortv, mkOrder())
-				rqs = append(rqs, fmt.Sprintf("RQ %s (PBefore %s) %s", cq.I(size), coqKey(h.sortv), coqObs(res, panicked)))
+				rqs = append(rqs, fmt.Sprintf("RQ %s (PBefore %s) %s", cq.I(size), topnCoqKey(h.sortv), topnCoqObs(res, panicked)))
 			} else {
 				res, panicked = search1(size, 0, h.sortv, nil, mkOrder())
-				rqs = append(rqs, fmt.Sprintf("RQ %s (PAfter %s) %s", cq.I(size), coqKey(h.sortv), coqObs(res, panicked)))
+				rqs = append(rqs, fmt.Sprintf("RQ %s (PAfter %s) %s", cq.I(size), topnCoqKey(h.sortv), topnCoqObs(res, panicked)))
 			}
-			qmeta = append(qmeta, fmt.Sprintf("n=%d before=%v key=%q -> %v", size, before, h.sortv, numbersOf(res)))
+			qmeta = append(qmeta, fmt.Sprintf("n=%d before=%v key=%q -> %v", size, before, h.sortv, topnNumbersOf(res)))
 			w.Count("e2e:after-before-queries", 1)
 			if rr.distinct {
 				w.OracleEval(1)
 				p := posOf[h.number]
-				want := sliceOf(rr.order, p+1, size)
+				want := topnSliceOf(rr.order, p+1, size)
 				if before {
 					lo := p - size
 					if lo < 0 {
@@ -1116,20 +1145,20 @@ func topnEndToEnd(rng *rand.Rand, w *cq.Writer, ii int) error {
 					}
 					want = rr.order[lo:p]
 				}
-				if panicked || !sameNumbers(res, want, numberOf) {
-					w.OracleFail(failKey("C09-after-before-page", rr), "After/Before page is not the adjacent n matches of the ranking, in ranking order",
-						map[string]interface{}{"order": orderString(order), "n": size, "before": before, "key": fmt.Sprintf("%q", h.sortv),
-							"got": numbersOf(res), "matches": describe()})
+				if panicked || !topnSameNumbers(res, want, numberOf) {
+					w.OracleFail(topnFailKey("C09-after-before-page", rr), "After/Before page is not the adjacent n matches of the ranking, in ranking order",
+						map[string]interface{}{"order": topnOrderString(order), "n": size, "before": before, "key": fmt.Sprintf("%q", h.sortv),
+							"got": topnNumbersOf(res), "matches": describe()})
 				}
 			}
 		}
 		if rr.distinct && n > 0 {
-			for _, page := range []int{1, 2, 3, switchPoint + 1} {
+			for _, page := range []int{1, 2, 3, topnSwitchPoint + 1} {
 				// forward chain
 				var seenN []uint64
 				res, _ := search1(page, 0, nil, nil, mkOrder())
 				for guard := 0; len(res) > 0 && guard < n+3; guard++ {
-					seenN = append(seenN, numbersOf(res)...)
+					seenN = append(seenN, topnNumbersOf(res)...)
 					res, _ = search1(page, 0, res[len(res)-1].sortv, nil, mkOrder())
 				}
 				w.OracleEval(1)
@@ -1139,15 +1168,15 @@ func topnEndToEnd(rng *rand.Rand, w *cq.Writer, ii int) error {
 					ok = seenN[i] == numberOf(rr.order[i])
 				}
 				if !ok {
-					w.OracleFail(failKey("C09-paging-covers", rr), "chained After does not visit every match once in order",
-						map[string]interface{}{"order": orderString(order), "page": page, "visited": seenN, "matches": describe()})
+					w.OracleFail(topnFailKey("C09-paging-covers", rr), "chained After does not visit every match once in order",
+						map[string]interface{}{"order": topnOrderString(order), "page": page, "visited": seenN, "matches": describe()})
 				}
 				// backward chain from the last match
 				last := full[len(full)-1]
 				back := []uint64{last.number}
 				res, _ = search1(page, 0, nil, last.sortv, mkOrder())
 				for guard := 0; len(res) > 0 && guard < n+3; guard++ {
-					back = append(numbersOf(res), back...)
+					back = append(topnNumbersOf(res), back...)
 					res, _ = search1(page, 0, nil, res[0].sortv, mkOrder())
 				}
 				w.OracleEval(1)
@@ -1157,8 +1186,8 @@ func topnEndToEnd(rng *rand.Rand, w *cq.Writer, ii int) error {
 					ok = back[i] == numberOf(rr.order[i])
 				}
 				if !ok {
-					w.OracleFail(failKey("C09-paging-covers", rr), "chained Before does not visit every match once in order",
-						map[string]interface{}{"order": orderString(order), "page": page, "visited": back, "matches": describe()})
+					w.OracleFail(topnFailKey("C09-paging-covers", rr), "chained Before does not visit every match once in order",
+						map[string]interface{}{"order": topnOrderString(order), "page": page, "visited": back, "matches": describe()})
 				}
 			}
 		}
@@ -1166,12 +1195,12 @@ func topnEndToEnd(rng *rand.Rand, w *cq.Writer, ii int) error {
 		for i, m := range matches {
 			dv := map[int][][]byte{}
 			for f, vs := range seen[i] {
-				dv[fieldID(f)] = vs
+				dv[topnFieldID(f)] = vs
 			}
-			hs[i] = coqRawHit(m.number, m.score, dv, nil)
+			hs[i] = topnCoqRawHit(m.number, m.score, dv, nil)
 		}
-		w.Add(fmt.Sprintf("CTopN %s [] %s\n [] %s", coqOrder(order), cq.List(hs), cq.List(rqs)), "e2e", n > 1,
-			map[string]interface{}{"index": ii, "docs": nd, "query": qk, "matches": n, "order": orderString(order), "queries": qmeta, "distinct": rr.distinct})
+		w.Add(fmt.Sprintf("CTopN %s [] %s\n [] %s", topnCoqOrder(order), cq.List(hs), cq.List(rqs)), "e2e", n > 1,
+			map[string]interface{}{"index": ii, "docs": nd, "query": qk, "matches": n, "order": topnOrderString(order), "queries": qmeta, "distinct": rr.distinct})
 		w.Count("e2e:matches", n)
 	}
 	return nil
@@ -1209,8 +1238,8 @@ func topnSharedSortProbe(w *cq.Writer) {
 		if err != nil {
 			return
 		}
-		res, _ := drain(it)
-		runs = append(runs, numbersOf(res))
+		res, _ := topnDrain(it)
+		runs = append(runs, topnNumbersOf(res))
 	}
 	w.OracleEval(1)
 	for k := 1; k < len(runs); k++ {
